@@ -43,7 +43,7 @@ def _write_replay(prop, bucket, regress=False):
 
 
 AMBIENT_ENV = {'VERIF_AMBIENT': '1', 'TZ': 'Pacific/Kiritimati', 'PYTHONWARNINGS': 'default'}
-AMBIENT_SETTINGS = ('python -O (asserts compiled away), TZ=Pacific/Kiritimati (UTC+14), and around every library call made through '
+AMBIENT_SETTINGS = ('python -O (asserts compiled away), TZ=Pacific/Kiritimati (UTC+14), node under LC_ALL=ar_EG.UTF-8, and around every library call made through '
                     'vlib.lib.call: decimal context prec=6 ROUND_FLOOR / prec=3 ROUND_UP alternating, warnings raised as errors')
 
 
